@@ -182,7 +182,7 @@ def k2_post(line, impl_out, model_out):
 
 
 # ------------------------------------------------------------------------------------------
-def _planted(seed, n, shape, rank, noise):
+def _planted(seed, n, shape, rank, noise, contrast=1.0):
     """Stack with a planted, well separated spectrum: sum_k a_k u_k v_k^T + noise."""
     r = np.random.default_rng(seed)
     nf = int(np.prod(shape))
@@ -190,7 +190,7 @@ def _planted(seed, n, shape, rank, noise):
     for k in range(rank):
         u = r.normal(size=n)
         v = r.normal(size=nf)
-        X += (rank - k + 1) * 3.0 * np.outer(u / np.linalg.norm(u), v / np.linalg.norm(v)) * np.sqrt(n)
+        X += (contrast if k == 0 else 1.0) * (rank - k + 1) * 3.0 * np.outer(u / np.linalg.norm(u), v / np.linalg.norm(v)) * np.sqrt(n)
     X += r.normal(size=nf)[None, :]          # a non-zero mean image
     return X.reshape((n,) + tuple(shape)).astype(np.float32)
 
@@ -215,7 +215,9 @@ def run_case(inp):
     r = np.random.default_rng(inp["seed"])
     if kind in ("exact", "chunks"):
         shape, n, k = tuple(inp["shape"]), int(inp["n"]), int(inp["k"])
-        stack = _planted(inp["seed"], n, shape, k + 1, 0.3)
+        stack = _planted(inp["seed"], n, shape, k + 1, float(inp.get("noise", 0.3)), float(inp.get("contrast", 1.0)))
+        if inp.get("offset"):           # raw, un-normalised sub-volumes: a common density offset far above the variation
+            stack = (stack / np.abs(stack).max() + np.float32(inp["offset"])).astype(np.float32)
         if inp.get("dtype"):            # raw-count stacks (integer dtypes) are legal input
             stack = np.round((stack - stack.min()) / (stack.max() - stack.min()) * (200 if inp["dtype"] == "uint8" else 3000)).astype(inp["dtype"])
         m = inp["mask"]
@@ -408,6 +410,17 @@ def oracle(rng, thorough, deep=False, hints=None):
         per = int(rng.integers(4, 9))
         cases.append(dict(kind="clusters", shape=[4, 5, 4], groups=g, per=per, seed=int(rng.integers(0, 10 ** 6)),
                           kseed=int(rng.integers(0, 100)), chunks=[int(rng.integers(1, g * per + 1)), 4, 5, int(rng.integers(1, 5))]))
+    for i in range(3 if big else 2):
+        shape, n, k = [(6, 7, 8), (5, 5, 6), (4, 6, 5)][i % 3], [30, 24, 40][i % 3], 3
+        cases.append(dict(kind="exact", shape=list(shape), n=n, k=k, mask=["soft", "none", "binary"][i % 3], offset=[1000.0, 300.0, 2000.0][i % 3],
+                          chunkings=[[int(rng.integers(5, n + 1))] + list(shape), [n] + list(shape)],
+                          seed=int(rng.integers(0, 10 ** 6)), scheduler="synchronous"))
+    # tiny boxes, many images, one dominating component (first singular value a thousand times the second), float32 data
+    for i in range(4 if big else 2):
+        shape, n, k = [(2, 3, 2), (2, 2, 3), (3, 2, 2), (2, 3, 3)][i % 4], [150, 200, 240, 300][i % 4], 2
+        cases.append(dict(kind="exact", shape=list(shape), n=n, k=k, mask="none", contrast=[1000.0, 3000.0][i % 2], noise=0.05,
+                          chunkings=[[int(rng.integers(20, n + 1))] + list(shape), [n] + list(shape)],
+                          seed=int(rng.integers(0, 10 ** 6)), scheduler="synchronous"))
     for i in range(40 if big else 8):
         cases.append(dict(kind="clusters", shape=[4, 5, 4], groups=3, per=0, sizes=[4, 4, [110, 60][i % 2]], seed=int(rng.integers(0, 10 ** 6)),
                           kseed=int(rng.integers(0, 1000)) if i else 0, chunks=[int(rng.integers(20, 119)), 4, 5, 4]))
